@@ -472,6 +472,12 @@ func (dr *dagReader) Seek(offset int64, whence int) (int64, error) {
 			}
 		})
 		if err != nil {
+			// The walker may have moved part of the way towards the target
+			// while the offset was already reset: go back to a consistent
+			// position (the start of the file) before reporting the failure,
+			// otherwise a later read would return data from wherever the
+			// failed search stopped.
+			dr.resetPosition()
 			return 0, err
 		}
 
